@@ -44,7 +44,8 @@ class MessageDecoder(metaclass=ABCMeta):
             -> MessageDecoder:
         """Return a decoder from the CTE header value.
 
-        There is built-in support for ``7bit``, ``8bit``, ``quoted-printable``,
+        There is built-in support for ``7bit``, ``8bit``, ``binary``,
+        ``quoted-printable``,
         and ``base64`` CTE header values. Decoders can be added or overridden
         with the :attr:`.registry` dictionary.
 
@@ -58,7 +59,7 @@ class MessageDecoder(metaclass=ABCMeta):
         custom = cls.registry.get(hdr_str)
         if custom is not None:
             return custom
-        elif hdr_str in ('7bit', '8bit'):
+        elif hdr_str in ('7bit', '8bit', 'binary'):
             return _NoopDecoder()
         elif hdr_str == 'quoted-printable':
             return _QuotedPrintableDecoder()
